@@ -44,7 +44,7 @@ def run_env(fn, cases, hashseed='0', cwd=None, par=2 * vlib.NPROC):
     if not cases:
         return []
     r = vlib.run_impl('detfn.fanout', [{'fn': fn, 'cases': cases, 'par': par}], hashseed=hashseed,
-                      cwd=cwd, timeout=7200)[0]
+                      cwd=cwd, timeout=36000)[0]
     if not isinstance(r, list):
         return [{'harness': 'fanout-failed', 'stderr': str(r)[:500]}] * len(cases)
     return r
